@@ -12,7 +12,7 @@ import (
 )
 
 type c10Case struct {
-	Phase   string   `json:"phase"` // init | working | extfin | reset
+	Phase   string   `json:"phase"` // init | working | extfin | reset | resetgap
 	D       int      `json:"d"`     // how long the first invocation stays in the phase (ms)
 	Offsets []int    `json:"offsets"`
 	Payload kit.Blob `json:"payload"`
@@ -40,8 +40,34 @@ func (c *c10Case) scenario() *Scenario {
 		sc.Config.ExtDir = []DirEntry{{Name: "e1", Kind: "file"}}
 		sc.Actors["ext:e1"] = []Script{{Steps: []Step{{Op: "ext.loop", Events: []string{"INVOKE"}}}}}
 		sc.Actors["runtime"] = []Script{{Steps: []Step{{Op: "rt.next", Signal: []string{"gotevent"}}, {Op: "stall"}}, OnTerm: "ignore"}, {Steps: []Step{loop}}}
+	case "resetgap":
+		// the first invocation times out; the extra caller arrives in the last stretch of its reset: the interop server has
+		// just forgotten the first invocation's reservation (vhook reset.serverCleared) but the reset call has not returned
+		// yet. The caller is accepted there; D is how long its own invocation then stays with the new runtime, i.e. how
+		// much of it overlaps the rest of the reset.
+		sc.Config.TimeoutMs = 250
+		sc.Hooks = []HookPlan{{Point: "reset.serverCleared", Nth: 1}}
+		sc.Actors["runtime"] = []Script{{Steps: []Step{{Op: "rt.next", Signal: []string{"gotevent"}}, {Op: "stall"}}},
+			{Steps: []Step{{Op: "rt.next"}, {Op: "sleep", Ms: c.D % 160}, {Op: "rt.response", ID: "cur", BodyMode: "transform"}, loop}}}
 	}
 	sc.Driver = append(sc.Driver, Step{Op: "invoke", Tag: "i0", Async: true, Payload: &c.Payload, SigIssued: "issued"})
+	if c.Phase == "resetgap" {
+		sc.Driver = append(sc.Driver, Step{Op: "await", Name: "gotevent"}, Step{Op: "hook.wait", Point: "reset.serverCleared", Ms: 4000})
+		for i, off := range c.Offsets {
+			sc.Driver = append(sc.Driver, Step{Op: "sleep", Ms: off}, Step{Op: "invoke", Async: true, Tag: fmt.Sprintf("x%d", i), Payload: &kit.Blob{Len: 5 + i, Seed: uint64(i), Kind: "ascii"}})
+			if i == 0 {
+				sc.Driver = append(sc.Driver, Step{Op: "waitreserved"})
+			}
+		}
+		sc.Driver = append(sc.Driver, Step{Op: "hook.release", Point: "reset.serverCleared"})
+		for i := range c.Offsets {
+			sc.Driver = append(sc.Driver, Step{Op: "join", Tag: fmt.Sprintf("x%d", i)})
+		}
+		sc.Driver = append(sc.Driver, Step{Op: "join", Tag: "i0"},
+			Step{Op: "invoke", Tag: "i1", Payload: &kit.Blob{Len: 33, Seed: 9, Kind: "ascii"}},
+			Step{Op: "invoke", Tag: "i2", Payload: &kit.Blob{Len: 34, Seed: 10, Kind: "json"}})
+		return sc
+	}
 	switch c.Phase {
 	case "init":
 		sc.Driver = append(sc.Driver, Step{Op: "waitreserved"})
@@ -80,13 +106,27 @@ func expectOK(out *kit.Outcome, prop string, tr *Trace, tag string, payload kit.
 		out.Violate(prop+"/no-outcome", "invocation %s has no outcome", tag)
 		return false
 	}
-	// the id of the dispatch inside this caller's window (authoritative); the runtime's own view as fall-back - a process
-	// killed just before may still record the last answer it got, late, inside this window
-	id := platformRequestID(tr, tag)
-	if id == "" {
-		id = invokedID(tr, tag)
+	// Which request id did this caller's invocation get? Every dispatch recorded inside the caller's window is a
+	// candidate, and so is the runtime's own view. With concurrent callers the windows overlap - another caller's dispatch
+	// may be recorded before my recording of this caller's return (a false alarm of the version that took the last
+	// dispatch in the window) - and a process killed just before may record the last answer it got, late, inside this
+	// window. The caller's bytes must be the transform of ITS OWN payload under one of these ids; since payloads of
+	// different callers differ, another invocation's answer does not pass.
+	ids := platformRequestIDs(tr, tag)
+	if rid := invokedID(tr, tag); rid != "" {
+		ids = append(ids, rid)
+	}
+	id := ""
+	if len(ids) > 0 {
+		id = ids[0]
 	}
 	want := kit.Summarise(transform(id, trunc(payload.Bytes())))
+	for _, cand := range ids {
+		if w := kit.Summarise(transform(cand, trunc(payload.Bytes()))); ret.Body != nil && ret.Body.Sha == w.Sha {
+			id, want = cand, w
+			break
+		}
+	}
 	if strings.HasPrefix(ret.Text, "Task timed out") && tr.TimeoutMs > 0 && tr.MaxLagMs > float64(tr.TimeoutMs)/4 {
 		// the whole host process was starved of CPU (loaded machine): a timeout of a healthy invocation says nothing
 		out.Inconclusive = fmt.Sprintf("host starved: wake-up lag %.0f ms with a %d ms function timeout", tr.MaxLagMs, tr.TimeoutMs)
@@ -159,8 +199,20 @@ func c10Check(c c10Case) kit.Outcome {
 			out.Violate("C10/no-outcome", "extra caller %s has no outcome", tag)
 			return out
 		}
+		// whenever it arrived: a caller that is not refused has been accepted as an invocation of its own, and then it gets
+		// the runtime's answer to its own event - "no effect on later ones" (an accepted caller answered with nothing, its
+		// runtime's answer refused, was a defect of the last stretch of the reset)
+		if ret.Status == 200 {
+			out.Label("extra-accepted")
+			if !expectOK(&out, "C10", tr, tag, kit.Blob{Len: 5 + i, Seed: uint64(i), Kind: "ascii"}) {
+				if n := len(out.Violations); n > 0 {
+					out.Violations[n-1].Key = "C10/accepted-extra-not-served"
+				}
+				return out
+			}
+		}
 		if cause == 0 || ret.Seq > cause {
-			// it may have been handled after the first invocation was over: says nothing about the property
+			// it may have been handled after the first invocation was over: says nothing more about the property
 			continue
 		}
 		inPhase++
@@ -173,14 +225,28 @@ func c10Check(c c10Case) kit.Outcome {
 			return out
 		}
 	}
-	if inPhase > 0 {
+	if c.Phase == "resetgap" {
+		// by construction (pause point): issued after the server forgot the first reservation, before the reset returned
+		parked := false
+		for k := range tr.Events {
+			if e := &tr.Events[k]; e.Kind == "hook.parked" && e.Call == "reset.serverCleared" {
+				parked = true
+			}
+		}
+		if parked {
+			out.Label("extras-in-reset-gap")
+		} else {
+			out.Nontrivial = false
+			out.Label("extras-missed-phase")
+		}
+	} else if inPhase > 0 {
 		out.Label("extras-in-flight")
 	} else {
 		out.Nontrivial = false
 		out.Label("extras-missed-phase")
 	}
 	// the first invocation is unaffected
-	if c.Phase == "reset" {
+	if c.Phase == "reset" || c.Phase == "resetgap" {
 		if first.Status != 200 || first.Text != "Task timed out after 4.00 seconds" {
 			out.Violate("C10/first-affected", "first invocation (timeout expected) got %d %q", first.Status, clip(first.Text, 200))
 			return out
@@ -196,12 +262,15 @@ func c10Check(c c10Case) kit.Outcome {
 }
 
 func c10Gen(t *rapid.T) c10Case {
-	c := c10Case{Phase: rapid.SampledFrom([]string{"init", "working", "extfin", "reset"}).Draw(t, "phase"),
+	c := c10Case{Phase: rapid.SampledFrom([]string{"init", "working", "extfin", "reset", "resetgap"}).Draw(t, "phase"),
 		D: rapid.IntRange(50, 400).Draw(t, "d"), Payload: genBlob(t, "p", false)}
 	n := rapid.IntRange(1, 2).Draw(t, "extras")
 	budget := c.D
 	if c.Phase == "reset" {
 		budget = 300
+	}
+	if c.Phase == "resetgap" {
+		budget = 40
 	}
 	for i := 0; i < n; i++ {
 		off := rapid.IntRange(0, budget/n).Draw(t, fmt.Sprintf("off%d", i))
@@ -217,6 +286,8 @@ func c10Fixed() []c10Case {
 		{Phase: "init", D: 150, Offsets: []int{10, 20}, Payload: p},
 		{Phase: "extfin", D: 150, Offsets: []int{10}, Payload: p},
 		{Phase: "reset", D: 100, Offsets: []int{50, 100}, Payload: p},
+		{Phase: "resetgap", D: 120, Offsets: []int{0}, Payload: p},
+		{Phase: "resetgap", D: 60, Offsets: []int{5, 20}, Payload: p},
 	}
 }
 
